@@ -33,6 +33,8 @@ pub enum Op {
     /// internal client (the server itself)
     ISet { key: String, value: Value },
     CSet { c: C, key: String, value: Value, ver: Ver },
+    /// write again the value the idx-th existing user key already has
+    Reset { c: C, idx: u16 },
     Delete { c: C, key: String },
     PDelete { c: C, pattern: String },
     Import { entries: Vec<ImportEntry> },
@@ -66,6 +68,7 @@ impl Op {
             Op::Set { .. } => "set",
             Op::ISet { .. } => "iset",
             Op::CSet { .. } => "cset",
+            Op::Reset { .. } => "reset",
             Op::Delete { .. } => "delete",
             Op::PDelete { .. } => "pdelete",
             Op::Import { .. } => "import",
@@ -290,6 +293,8 @@ pub struct Weights {
     pub bad_patterns: u32,
     /// keys / patterns aimed at $SYS
     pub sys_targets: u32,
+    /// value-preserving rewrites of an existing key
+    pub reset: u32,
 }
 
 impl Weights {
@@ -317,6 +322,7 @@ impl Weights {
             registrations: 0,
             bad_patterns: 2,
             sys_targets: 0,
+            reset: 3,
         }
     }
 }
@@ -398,6 +404,7 @@ pub fn op(wt: &Weights, nclients: u8) -> BoxedStrategy<Op> {
             .prop_map(|(key, value)| Op::ISet { key, value })
             .boxed(),
     );
+    add(wt.reset, (c(), any::<u16>()).prop_map(|(c, idx)| Op::Reset { c, idx }).boxed());
     add(
         wt.cset,
         (c(), k(), small_value(), ver()).prop_map(|(c, key, value, ver)| Op::CSet { c, key, value, ver }).boxed(),
